@@ -207,7 +207,8 @@ def run(ctx):
                     sshape = [1] * len(shape)
                     sshape[0 if axis == 0 else -1] = rows
                     scale = sc.reshape(sshape)
-                    for lname, xl in gen.layouts(x, which=("contiguous", "transposed", "sliced")):
+                    # views whose elements share memory included: stride-0 expansion, sliding windows over a vector
+                    for lname, xl in gen.layouts(x, which=("contiguous", "transposed", "sliced", "expanded", "windows")):
                         judge(ctx, xl, qtn, storage, scale, axis, "SymmetricQuantizer.apply", f"tagged{rep}", lname,
                               qtypes, fn_act, SQ)
                     # last axis addressed by its positive index is the documented alias of -1
